@@ -14,6 +14,7 @@ from __future__ import annotations
 
 import ast
 import os
+import random
 import re
 import shutil
 import tempfile
@@ -916,6 +917,10 @@ def run(tier: str, seed: int) -> int:
                          {"case": cases[b], "implementation": run_fcase(cases[b]), "model_says": shown.get(b)})
         else:
             chk.disagree("format-error-coqc", "case shard failed to evaluate", {"log": log})
+    # ---- the index a site passes IS the line the real compiler names: parser model (for which Props/C14.v proves that
+    # the index of every located site is the construct's line) against the real message, inside Coq ----
+    from . import diag_index_tie
+    diag_index_tie.phase(chk, random.Random(rng.randrange(10 ** 9)), 120 if tier == "quick" else 1500)
     chk.cov["programs"] = orc.tried + len(terms)
     chk.cov["disagreements_checked"] = len(terms)
     chk.cov["disagreements_found"] = len(bad)
